@@ -195,6 +195,24 @@ pub struct Finding {
     pub commit: String,
 }
 
+/// Which build of the simulator (and of zlink under it) this process is.
+pub const BUILD: &str = if cfg!(debug_assertions) { "release+debug-assertions+overflow-checks" } else { "fast (opt-level 3, no debug assertions, no overflow checks)" };
+
+/// The optimised-build pass adds its summary to the evidence file written by the main pass.
+pub fn patch_evidence_with_twin(id: &str, rc: i32, seeded: u64, wall: f64) {
+    let path = verif_dir().join("evidence").join(format!("{id}.json"));
+    let Ok(s) = std::fs::read_to_string(&path) else { return };
+    let Ok(mut v) = serde_json::from_str::<Value>(&s) else { return };
+    v["coverage"]["optimised_build_pass"] = json!({
+        "what": "the systematic cases and this many seeded runs (another seed) executed by a second build of the simulator and of zlink: opt-level 3, debug assertions off, overflow checks off",
+        "build": BUILD, "seeded_random_runs": seeded, "exit": rc, "wall_s": wall,
+    });
+    if rc == 1 {
+        v["violations"] = json!(1);
+    }
+    let _ = std::fs::write(&path, serde_json::to_string_pretty(&v).unwrap() + "\n");
+}
+
 pub fn verif_dir() -> PathBuf {
     std::env::var("VERIF_DIR").map(PathBuf::from).unwrap_or_else(|_| PathBuf::from("/verif"))
 }
@@ -493,6 +511,7 @@ fn write_blocked_replay(prop: &dyn Prop, opt: &Options, idx: usize, class: &str,
         "history_hash": "",
         "tape": tape,
         "tape_generator_seed": gen_seed,
+        "build": BUILD,
         "watchdog_secs": limit,
         "note": "the execution never finished, so its tape could not be recorded or minimised; the replay regenerates it from tape_generator_seed",
     });
@@ -524,6 +543,7 @@ fn write_replay(
         "history_hash": format!("{:016x}", out.hash),
         "tape": tape,
         "ballast_bytes": opt.ballast,
+        "build": BUILD,
         "scenario": out.sample,
         "trace": out.trace,
     });
